@@ -23,7 +23,7 @@ Theorem C20_memo_confluence_partial :
     (forall i, ok memo base nothing (ps i) (rs i)) -> consistent memo base s0 ->
   forall (veqb : V -> V -> bool), (forall a, veqb a a = true) ->
   forall sched : list nat,
-    let c := run sched (init ps s0) in
+    let c := exec sched (init ps s0) in
     (forall i r, result c i = Some r -> r = fst (solo (ps i) s0)) /\
     Forall (fun k => k <> KDestructiveWrite) (kinds veqb sched (init ps s0)) /\
     (forall k, c_store c k = union_store memo s0 (c_log c) k) /\
@@ -36,7 +36,7 @@ Print Assumptions C20_memo_confluence_partial.
 Theorem C20_every_fair_schedule_finishes :
   forall (V R : Type) (sched : list nat) (c : config V R) (i n : nat),
     bounded (c_pool c i) n -> n <= count_occ Nat.eq_dec sched i ->
-    exists r, result (run sched c) i = Some r.
+    exists r, result (exec sched c) i = Some r.
 Proof. exact bounded_finishes. Qed.
 Print Assumptions C20_every_fair_schedule_finishes.
 
@@ -47,7 +47,7 @@ Theorem C20_part_writer :
   forall (V R : Type) (own : N -> option nat) (ps : pool V R) (s0 : store V),
     (forall i, respects own i (ps i)) ->
   forall sched : list nat,
-    let c := run sched (init ps s0) in
+    let c := exec sched (init ps s0) in
     (forall k, own k = None -> c_store c k = s0 k) /\
     Forall (fun e => own (snd e) = Some (fst e)) (c_log c) /\
     (forall i r, result c i = Some r ->
@@ -63,7 +63,7 @@ Print Assumptions C20_part_writer.
 Theorem C20_rebuild_refuted :
   exists ws, tree_writes (flat_schema 3) = Some ws /\
   exists sched,
-    result (run sched (init (rebuild_pool ws 2%N) (built ws))) 1 = Some 1%N /\
+    result (exec sched (init (rebuild_pool ws 2%N) (built ws))) 1 = Some 1%N /\
     fst (solo (rebuild_pool ws 2%N 1) (built ws)) = 0%N /\
     In KDestructiveWrite (kinds list_eqb sched (init (rebuild_pool ws 2%N) (built ws))).
 Proof. exact rebuild_refuted_3. Qed.
@@ -116,7 +116,7 @@ Proof.
 Qed.
 
 Example C20_nonvacuous :
-  let c := run [0; 1; 0; 2; 1; 0; 1; 1; 0; 2] (init nv_pool nv_base) in
+  let c := exec [0; 1; 0; 2; 1; 0; 1; 1; 0; 2] (init nv_pool nv_base) in
   result c 0 = Some 42%N /\ result c 1 = Some 42%N /\ result c 2 = Some 41%N /\
   fst (solo (nv_pool 0) nv_base) = 42%N /\ c_store c 7%N = Some 42%N /\
   c_log c = [(1, 7%N); (0, 7%N)] /\
